@@ -61,6 +61,15 @@ Section Proofs.
     rewrite Forall_forall in HF. now apply HF.
   Qed.
 
+  (* the acceptance test of [guided]: an accepted observed simplex is sorted *)
+  Lemma sortedb_Sorted l : sortedb N l = true -> Sorted fle l.
+  Proof.
+    induction l as [|v r IH]; [constructor|]. destruct r as [|w r'].
+    - intros _. repeat constructor.
+    - intros H. change (negb (ltb N (snd w) (snd v)) && sortedb N (w :: r') = true) in H.
+      apply andb_true_iff in H as [A B]. constructor; [now apply IH|]. constructor. now apply negb_true_iff in A.
+  Qed.
+
   (* ---------------------------------------------------------------- one iteration = exactly one of the five published moves *)
   Notation f0 sim := (snd (v_best N sim)).
   Notation fs sim := (snd (v_second N sim)).
